@@ -71,6 +71,7 @@ def explore(ctx, drv, model, cases):
 
 def run(ctx):
     ctx.gate(["Base", "Num", "C29"])
+    nc.check_palette(ctx)
     ctx.prove(PROOF_MODULES, OBLIGATIONS)
     drv, model = nc.build(ctx)
     pal = list(nc.REAL_PALETTE)
